@@ -38,10 +38,18 @@ def mk_portscfg(pc, order=None):
     return PortsCfg(provides=prov, requires=req, multiclient=mc)
 
 
+def enc_name(ids):
+    """the encapsulee name as NamespaceIds or - for every third name - as the equivalent dotted string (build() converts it)"""
+    ids = list(ids)
+    if ids and all(isinstance(x, str) and x for x in ids) and sum(len(x) for x in ids) % 3 == 0:
+        return '.'.join(ids)
+    return NamespaceIds(ids)
+
+
 def mk_cfg(cfg, fc, order=None):
     return Configuration(dezyne_filename=cfg.get('file', 'Model.dzn'), ast_fc=fc,
                          output_basename_suffix=cfg.get('suffix', 'AdvShell'),
-                         fqn_encapsulee_name=NamespaceIds(list(cfg['enc'])),
+                         fqn_encapsulee_name=enc_name(cfg['enc']),
                          ports_cfg=mk_portscfg(cfg['ports'], order),
                          facilities_origin=FacilitiesOrigin.CREATE if cfg.get('fac', 'create') == 'create' else FacilitiesOrigin.IMPORT,
                          copyright=cfg.get('copyright', 'Copyright (c) X'),
